@@ -22,7 +22,11 @@ for n in sorted(os.listdir(os.path.join(V, "seeded"))):
         if scratch_mode:
             tree = os.path.join(tmp, "tree")
             shutil.copytree("/repo/tatsu", os.path.join(tree, "tatsu"), ignore=shutil.ignore_patterns("__pycache__", "*.pyc"))
-            subprocess.run(["patch", "-p1", "-s", "-d", tree, "-i", os.path.join(d, "patch.diff")], check=True)
+            pr = subprocess.run(["patch", "-p1", "-s", "-d", tree, "-i", os.path.join(d, "patch.diff")], capture_output=True, text=True)
+            if pr.returncode != 0:
+                print(f"{n:8s} {prop} PATCH DOES NOT APPLY to the current tree: {(pr.stdout + pr.stderr).strip()[:160]}", flush=True)
+                ok = False
+                continue
             env["VERIF_REPO"] = tree
         else:
             assert subprocess.run(["git", "-C", "/repo", "status", "--porcelain"], capture_output=True, text=True).stdout.strip() == "", "/repo not clean"
